@@ -396,6 +396,10 @@ class DynGraph(nx.Graph):
                 app[-1] = [app[-1][0], t[1]]
                 if app[-1][0] + 1 in self.time_to_edge and (u, v, "+") in self.time_to_edge[app[-1][0] + 1]:
                     del self.time_to_edge[app[-1][0] + 1][(u, v, "+")]
+                if (u, v, "-") in self.time_to_edge.get(t[0], {}):
+                    # the extended instant was closed explicitly: its '-' moves to the new end
+                    del self.time_to_edge[t[0]][(u, v, "-")]
+                    self.time_to_edge.setdefault(t[1] + 1, {})[(u, v, "-")] = None
 
             else:
                 if t[0] <= max_end < t[1]:
